@@ -244,7 +244,115 @@ def build(t):
         cls = getattr(pathlib, t[1])
         val = cls(t[2])
         return val, '(path %s (%s))' % (cls_sx(cls), cps(val.as_posix()))
+    if k == 'std':
+        return build_std(t)
     raise ValueError(t)
+
+
+FACTORIES = {'list': list, 'int': int, 'dict': dict, 'set': set, 'float': float, 'str': str}
+EXCS = {'ValueError': ValueError, 'KeyError': KeyError, 'OSError': OSError, 'Exception': Exception,
+        'StopIteration': StopIteration, 'ZeroDivisionError': ZeroDivisionError}
+PARTIAL_FUNCS = {'int': int, 'sorted': sorted, 'print': print, 'max': max}
+
+
+def _dict_parts(pairs):
+    """-> (python dict, 'KVS ORDER' part of the model's dict s-expression)"""
+    d, sx = build(('dict', pairs))
+    assert sx.startswith('(dict ') and sx.endswith(')')
+    return d, sx[len('(dict '):-1]
+
+
+def build_std(t):
+    """standard-library collections (Model/StdColl.v): ('std', kind, ...) -> (object, s-expression)"""
+    import collections
+    import functools
+    import types
+    kind = t[1]
+    if kind == 'ordered':
+        d, part = _dict_parts(t[2])            # insertion order = order of the pairs
+        kvs = part[:part.rindex('(')].rstrip()
+        return collections.OrderedDict(d), '(std ordered %s %s)' % (cls_sx(collections.OrderedDict), kvs)
+    if kind == 'deque':
+        els = [build(x) for x in t[2]]
+        ml = t[3]
+        if ml is not None:
+            els = els[-ml:] if ml else []
+        val = collections.deque([v for v, _ in els], maxlen=ml)
+        return val, '(std deque %s (%s) %s)' % (cls_sx(collections.deque), ' '.join(sx for _, sx in els),
+                                                'none' if ml is None else ml)
+    if kind == 'default':
+        d, part = _dict_parts(t[3])
+        f = FACTORIES[t[2]] if t[2] else None
+        return collections.defaultdict(f, d), '(std default %s %s %s)' % (
+            cls_sx(collections.defaultdict), '(repr %s)' % cps(t[2]) if t[2] else 'none', part)
+    if kind == 'counter':
+        c = collections.Counter()
+        terms = {}
+        for kt, n in t[2]:
+            kv, _ = build(kt)
+            if kv not in c:
+                terms[id(kv)] = (kv, kt)
+                c[kv] = n
+        # dict(counter.most_common()): the keys of the counter itself, in most_common order
+        mc = [(next(kt for kv, kt in terms.values() if kv is key), ('int', n)) for key, n in c.most_common()]
+        _d, part = _dict_parts(mc)
+        return c, '(std counter %s %s)' % (cls_sx(collections.Counter), part)
+    if kind == 'chain':
+        maps = [_dict_parts(m) for m in t[2]]
+        return collections.ChainMap(*[d for d, _ in maps]), '(std chain %s %s)' % (
+            cls_sx(collections.ChainMap), ' '.join('(%s)' % part for _, part in maps))
+    if kind == 'proxy':
+        d, part = _dict_parts(t[2])
+        return types.MappingProxyType(d), '(std proxy %s %s)' % (cls_sx(types.MappingProxyType), part)
+    if kind == 'exc':
+        args = [build(x) for x in t[3]]
+        cls = EXCS[t[2]]
+        val = cls(*[v for v, _ in args])
+        # what is printed is type(exc) and exc.args: OSError(errno, strerror, filename) keeps two of its three
+        # arguments in .args (and picks a subclass by errno) - exactly as repr() shows it
+        args = args[:len(val.args)]
+        return val, '(std exc %s (%s))' % (cls_sx(type(val)), ' '.join(sx for _, sx in args))
+    if kind == 'partial':
+        args = [build(x) for x in t[3]]
+        kws = [(kw, build(x)) for kw, x in t[4]]
+        val = functools.partial(PARTIAL_FUNCS[t[2]], *[v for v, _ in args], **{kw: v for kw, (v, _) in kws})
+        fsx = '(repr %s)' % cps(t[2])
+        if not isinstance(PARTIAL_FUNCS[t[2]], type):
+            fsx = '(commented %s (%s))' % (fsx, cps('built-in function'))     # pretty_builtin_function's own comment
+        return val, '(std partial %s %s (%s) (%s))' % (
+            cls_sx(functools.partial), fsx, ' '.join(sx for _, sx in args),
+            ' '.join('((%s) %s)' % (cps(kw), sx) for kw, (_, sx) in kws))
+    raise ValueError(t)
+
+
+def rand_std(r):
+    """a random standard-library collection over small built-in value trees"""
+    def val():
+        return rand_val(r, r.randint(1, 5), set())
+
+    def key():
+        return r.choice([('int', r.randint(-3, 30)), ('str', r.choice(['b', 'a', 'zz', 'k' * r.randint(1, 12)])),
+                         ('tuple', [('int', r.randint(0, 3))]), ('bytes', b'x'), ('float', 2.5), ('none',)])
+
+    def pairs(n=None):
+        return [(key(), val()) for _ in range(r.randint(0, 5) if n is None else n)]
+    kind = r.choice(['ordered', 'deque', 'default', 'counter', 'chain', 'proxy', 'exc', 'partial'])
+    if kind == 'ordered':
+        return ('std', 'ordered', pairs())
+    if kind == 'deque':
+        return ('std', 'deque', [val() for _ in range(r.randint(0, 5))], r.choice([None, None, 0, 1, 3, 10]))
+    if kind == 'default':
+        return ('std', 'default', r.choice([None] + sorted(FACTORIES)), pairs())
+    if kind == 'counter':
+        return ('std', 'counter', [(key(), r.choice([1, 1, 2, 3, 0, -1, 10 ** 12])) for _ in range(r.randint(0, 5))])
+    if kind == 'chain':
+        return ('std', 'chain', [pairs() for _ in range(r.choice([0, 1, 1, 2, 3]))])
+    if kind == 'proxy':
+        return ('std', 'proxy', pairs())
+    if kind == 'exc':
+        return ('std', 'exc', r.choice(sorted(EXCS)), [val() for _ in range(r.randint(0, 3))])
+    return ('std', 'partial', r.choice(sorted(PARTIAL_FUNCS)), [val() for _ in range(r.randint(0, 2))],
+            [(kw, val()) for kw in r.sample(['key', 'reverse', 'sep', 'base', 'default'], r.randint(0, 2))])
 
 
 # ---------------------------------------------------------------- leaves ----
